@@ -166,10 +166,22 @@ func parseService(dir, alias string) (*svcInfo, error) {
 					ptr = true
 				}
 				if id, ok := t.(*ast.Ident); ok {
+					// the error name is the string literal the method returns (types shared by
+					// several errors return a field instead: keyed by type name then)
+					ename := id.Name
+					if g.Body != nil {
+						for _, st := range g.Body.List {
+							if rs, ok := st.(*ast.ReturnStmt); ok && len(rs.Results) == 1 {
+								if bl, ok := rs.Results[0].(*ast.BasicLit); ok && bl.Kind == token.STRING {
+									ename, _ = strconv.Unquote(bl.Value)
+								}
+							}
+						}
+					}
 					if ptr {
-						si.ErrTypes = append(si.ErrTypes, "*"+id.Name)
+						si.ErrTypes = append(si.ErrTypes, ename+"=*"+id.Name)
 					} else {
-						si.ErrTypes = append(si.ErrTypes, id.Name)
+						si.ErrTypes = append(si.ErrTypes, ename+"="+id.Name)
 					}
 				}
 			}
@@ -311,10 +323,11 @@ func (b *Batch) WriteHarness(d *Design) error {
 		}
 		src.WriteString("},\n\t\t\tErrorTypes: map[string]any{\n")
 		for _, et := range si.ErrTypes {
-			if strings.HasPrefix(et, "*") {
-				fmt.Fprintf(&src, "\t\t\t\t%q: (*svc%d.%s)(nil),\n", et[1:], i, et[1:])
+			kv := strings.SplitN(et, "=", 2)
+			if strings.HasPrefix(kv[1], "*") {
+				fmt.Fprintf(&src, "\t\t\t\t%q: (*svc%d.%s)(nil),\n", kv[0], i, kv[1][1:])
 			} else {
-				fmt.Fprintf(&src, "\t\t\t\t%q: svc%d.%s(*new(svc%d.%s)),\n", et, i, et, i, et)
+				fmt.Fprintf(&src, "\t\t\t\t%q: *new(svc%d.%s),\n", kv[0], i, kv[1])
 			}
 		}
 		src.WriteString("\t\t\t},\n\t\t},\n")
